@@ -241,11 +241,12 @@ def lex(body):
     # a number next to ':' is a row reference ("1:2", "A1 1:2"), never a literal operand
     sig = [j for j, (k, _) in enumerate(toks) if k != 'ws']
     for a, j in enumerate(sig):
-        if toks[j][0] == 'num':
+        if toks[j][0] in ('num', 'bool', 'str'):
             near = [toks[sig[b]][0] for b in (a - 1, a + 1) if 0 <= b < len(sig)]
             if 'colon' in near:
-                if not toks[j][1].isdigit():
-                    raise Unknown('number-in-range')
+                # "TRUE:B2" is read as a name by some parsers, "1.5:2" / '"a":2' are nothing I am certain about
+                if toks[j][0] != 'num' or not toks[j][1].isdigit():
+                    raise Unknown('literal-in-range')
                 toks[j] = ('ref', toks[j][1])
     return toks
 
